@@ -589,6 +589,7 @@ def eval (ρ : VEnv) : Expr → Except Err Val
   | .true_ => .ok (.bool true)
   | .false_ => .ok (.bool false)
   | .none_ => .ok .none
+  | .empty_ => .ok .none
   | .var x => (match lookup x ρ with | some v => .ok v | Option.none => .error .unsupported)
   | .factor op e => do evalFactor op (← eval ρ e)
   | .not_ e => do pure (.bool (!truthy (← eval ρ e)))
